@@ -42,3 +42,16 @@ impl LuaIndex for LuaMetatableIndex {
         self.metatables.clear();
     }
 }
+
+/// Entry counts of every map of this index (verification hook, add-only, off by default).
+#[cfg(feature = "verif")]
+impl LuaMetatableIndex {
+    pub fn verif_sizes(&self) -> Vec<(String, usize)> {
+        let p = "metatable";
+        let mut v: Vec<(String, usize)> = Vec::new();
+        let mut put = |name: &str, n: usize| v.push((format!("{p}.{name}"), n));
+        put("metatables", self.metatables.len());
+
+        v
+    }
+}
